@@ -123,9 +123,9 @@ UNITS += [
     acc('Control.request', CTL_CLS, 'request', 'ControlT__request', [('C06', '__CPROVER_return_value == &self->_core->request')]),
     acc('ConstControl.request', CCTL_CLS, 'request', 'ConstControlT__request', [('C06', '__CPROVER_return_value == &self->_core->request')]),
     acc('GuardControl.pendingTransition', r'^ffsm2::detail::GuardControlT<', 'pendingTransition', 'GuardControlT__pendingTransition',
-        [('C06', '__CPROVER_return_value == self->_pendingTransition')], target_req=[fresh('self')]),
+        [('C06,C02,C07', '__CPROVER_return_value == self->_pendingTransition')], target_req=[fresh('self')]),
     acc('PlanControl.currentTransition', r'^ffsm2::detail::PlanControlT<', 'currentTransition', 'PlanControlT__currentTransition',
-        [('C06', '__CPROVER_return_value == self->_currentTransition')], target_req=[fresh('self')]),
+        [('C06,C07', '__CPROVER_return_value == self->_currentTransition')], target_req=[fresh('self')]),
 ]
 # scoped origin: the control reports the state whose callback is running, and the previous id afterwards
 def origin_units(alias, cls, ctlpath):
